@@ -50,7 +50,28 @@ def _eval_int_test(e: ast.AST, env: dict[str, Any]) -> bool:
 _LOCAL_CHUNKS: dict[str, str] = {}     # local names bound to a deep copy of the separators (filled per function by rule_orient)
 
 
-def _chunk_kind(arg: ast.AST, value_var: str) -> Optional[str]:
+def _eval_sep(e: ast.AST, env: dict[str, Any]) -> Optional[str]:
+    """which separator tuple an expression denotes: 'S' (separators) or 'Sb' (separators_before), through local names and conditionals"""
+    if isinstance(e, ast.Name) and isinstance(env.get(e.id), tuple) and env[e.id][:1] == ('sep',):
+        return env[e.id][1]
+    last = e.attr if isinstance(e, ast.Attribute) else e.id if isinstance(e, ast.Name) else None
+    if last in ('separators_before', '_separators_before'):
+        return 'Sb'
+    if last in ('separators', '_separators'):
+        return 'S'
+    if isinstance(e, ast.IfExp):
+        try:
+            return _eval_sep(e.body if _eval_int_test(e.test, env) else e.orelse, env)
+        except AnalysisError:
+            return None
+    return None
+
+
+def _chunk_kind(arg: ast.AST, value_var: str, env: Optional[dict[str, Any]] = None) -> Optional[str]:
+    if env is not None and isinstance(arg, ast.Call) and norm(arg.func) in ('copy.deepcopy', 'deepcopy') and len(arg.args) == 1:
+        k = _eval_sep(arg.args[0], env)
+        if k is not None:
+            return k
     t = norm(arg)
     if isinstance(arg, ast.Name) and arg.id in _LOCAL_CHUNKS:
         t = _LOCAL_CHUNKS[arg.id]
@@ -79,13 +100,14 @@ def _run_loop(fn: FuncInfo, loop: ast.For, env: dict[str, Any], n_values: int, a
                 run(st.body if _eval_int_test(st.test, env) else st.orelse)
             elif isinstance(st, ast.Expr) and isinstance(st.value, ast.Call) and isinstance(st.value.func, ast.Attribute) \
                     and norm(st.value.func.value) == acc_var and st.value.func.attr in ('extend', 'append'):
-                k = _chunk_kind(st.value.args[0], vvar)
+                k = _chunk_kind(st.value.args[0], vvar, env)
                 if k is None:
                     raise AnalysisError(f'ORIENT: chunk source {norm(st.value.args[0])} not modelled')
                 out.append(k)
             elif isinstance(st, ast.Assign) and isinstance(st.targets[0], ast.Name) and st.targets[0].id != acc_var:
                 nm = st.targets[0].id
-                env[nm] = ('expr', norm(st.value))
+                k_ = _eval_sep(st.value, env)
+                env[nm] = ('sep', k_) if k_ is not None else ('expr', norm(st.value))
             elif isinstance(st, ast.Assert):
                 pass
             else:
@@ -149,7 +171,15 @@ def rule_orient(ctx: RuleContext, p: Program, rid: str) -> None:
     if len(loops) != 1:
         raise AnalysisError('ORIENT: chunk loop of Repeated.from_children not found')
     for sb, nv in itertools.product([None, ('tuple',)], [1, 2, 3]):
-        seq, _ = _run_loop(g, loops[0], {'separators_before': sb}, nv, 'tokens')
+        env0: dict[str, Any] = {'separators_before': sb}
+        for a in stmts_no_doc(g.node.body):
+            if a is loops[0]:
+                break
+            if isinstance(a, ast.Assign) and len(a.targets) == 1 and isinstance(a.targets[0], ast.Name):
+                k_ = _eval_sep(a.value, env0)
+                if k_ is not None:
+                    env0[a.targets[0].id] = ('sep', k_)
+        seq, _ = _run_loop(g, loops[0], env0, nv, 'tokens')
         want = (['Sb', 'V'] if sb is not None else ['S', 'V']) + ['S', 'V'] * (nv - 1)
         n += 1
         ctx.check(seq == want, rid, 'models.internal.repeated:Repeated.from_children', f'separators_before {"given" if sb else "None"} values={nv}',
